@@ -30,7 +30,12 @@ ASSUMPTIONS = [
     "the patched scheduler-aware lock has the mutual-exclusion semantics of multiprocessing.Lock",
     "fairness/termination under the OS scheduler is outside the model",
 ]
-PARTIAL = ["progress (every thread eventually terminates) is not stated: it needs a fairness assumption on the schedule"]
+PARTIAL = ["termination is proved for schedules that can be cut into >= sum(2n+4) fair rounds (each round contains every thread id; "
+           "C07.fair_progress / av_fair_run_correct) and deadlock freedom for every reachable state (C07.deadlock_free); that the real "
+           "OS/GIL scheduler and threading.Lock are fair in this sense (every runnable thread is eventually scheduled) is an assumption, not a theorem",
+           "one write of _ensure_level is one atomic terminating step of the machine: termination/atomicity of a single list append or "
+           "level replacement inside CPython is taken from the sequential theory (C02) and the GIL, not proved here",
+           "answers are compared up to the order of the keys inside a level (List.Perm), as in C02"]
 TRUSTED = ["sys.settrace-based deterministic scheduler (harness/c07.py)", "monkey-patched Av._CACHE_LOCK"]
 
 HANG_S = 15.0
